@@ -648,6 +648,13 @@ def mech_lengths(site):
         ops = site.extra["ops"]
         if all(_length_leaves(site.fn, o) for o in ops):
             return "sum of lengths (each at most isize::MAX, so the usize sum cannot overflow)"
+    if site.kind == "overflow" and site.detail.startswith("Add usize,usize"):
+        # `self.counter += v.len()`: a field that counts elements which were all in memory at some time (the same argument as `+= 1`)
+        ops = site.extra["ops"]
+        lens = [o for o in ops if o.get("k") in ("copy", "move") and _length_leaves(site.fn, o)]
+        flds = [o for o in ops if o.get("k") in ("copy", "move") and o not in lens and place_fields(F.source_place(site.fn, o) or {"p": []})]
+        if len(lens) == 1 and len(flds) == 1:
+            return "element counter (usize field += len(): bounded by the number of elements ever held in memory)"
     if site.kind == "overflow" and site.detail.startswith("Add u64,u64"):
         # `counter += v.len() as u64`: the counter is bounded by the number of elements that were materialised in memory one batch
         # after the other - 2^64 of them are out of reach (the same argument as for `+= 1`)
